@@ -104,17 +104,17 @@ def _generate(ctx, rng):
             n += 1
             yield ("region", n), _tok_case(rng, pos="first", size=2, region=region)
     yield ("badpw", 0), {**_tok_case(rng, pos="first", size=1), "wrong_password": True}
-    for j in range(1200 if quick else 300000):
+    for j in range(1200 if quick else 900000):
         c = _tok_case(rng, pos=rng.choice(["absent", "first", "middle", "last", "only"]), size=rng.randint(1, 9))
         if rng.random() < 0.3:
             c["stage_faults"] = {str(rng.randrange(3)): [rng.choice(FAULTS + MORE_FAULTS + [None]) for _ in range(rng.randint(1, 3))]}
         yield ("rnd", j), c
     # several lookups in flight on ONE cloud object, the server listing every registered entry in each answer
-    for j in range(60 if quick else 15000):
+    for j in range(60 if quick else 45000):
         yield ("concurrent-tokens", j), {"kind": "concurrent-tokens", "n": rng.randint(2, 5), "cred": _cred(rng), "cseed": rng.getrandbits(32),
                                          "latency": rng.choice([0.0, 0.1, 0.5])}
     # several V3 devices discovered in one run (authenticated concurrently through one shared cloud object)
-    for j in range(25 if quick else 6000):
+    for j in range(25 if quick else 18000):
         nd = rng.randint(2, 4)
         yield ("e2e-multi", j), {"kind": "e2e-multi", "ids": [rng.getrandbits(48) | 1 for _ in range(nd)],
                                  "endians": [rng.choice(["little", "big"]) for _ in range(nd)], "cred": _cred(rng), "cseed": rng.getrandbits(32)}
@@ -124,7 +124,7 @@ def _generate(ctx, rng):
         yield ("e2e-zero", j), {"kind": "e2e", "id": did, "endian": endian, "token": rng.randbytes(64), "key": rng.randbytes(32), "cred": _cred(rng),
                                 "mode": "broadcast" if j % 2 else "single", "others": 0}
     # several V3 devices connected one after the other while the cloud has a transient fault during the first login
-    for j in range(40 if quick else 7500):
+    for j in range(40 if quick else 22500):
         nd = rng.randint(2, 3)
         yield ("e2e-connect", j), {"kind": "e2e-connect", "ids": [rng.getrandbits(48) | 1 for _ in range(nd)],
                                    "endians": [rng.choice(["little", "big"]) for _ in range(nd)], "cred": _cred(rng),
@@ -132,15 +132,16 @@ def _generate(ctx, rng):
                                    "fault_stage": rng.choice([0, 1])}
     # ... and faults while the token of a discovered device is fetched: exhausted timeouts, HTTP failures and API error codes on
     # getToken must surface from Discover.connect() as CloudError; one or two timeouts are retried and the device is authenticated
-    for j in range(60 if quick else 7500):
+    for j in range(60 if quick else 22500):
         nd = rng.randint(2, 3)
         f = (FAULTS + MORE_FAULTS)[j % len(FAULTS + MORE_FAULTS)] if j < 2 * len(FAULTS + MORE_FAULTS) else rng.choice(FAULTS + MORE_FAULTS)
         yield ("e2e-connect-token", j), {"kind": "e2e-connect", "ids": [rng.getrandbits(48) | 1 for _ in range(nd)],
                                          "endians": [rng.choice(["little", "big"]) for _ in range(nd)], "cred": _cred(rng),
                                          "faults": [f] * rng.choice([1, 2, 3]), "cseed": rng.getrandbits(32), "fault_stage": 2}
-    for j in range(60 if quick else 12500):
+    for j in range(60 if quick else 37500):
         yield ("e2e", j), {"kind": "e2e", "id": rng.getrandbits(48) | 1, "endian": rng.choice(["little", "big"]), "token": rng.randbytes(64),
-                           "key": rng.randbytes(32), "cred": _cred(rng), "mode": rng.choice(["broadcast", "single"]), "others": rng.randint(0, 2)}
+                           "key": rng.randbytes(32), "cred": _cred(rng), "mode": rng.choice(["broadcast", "single"]), "others": rng.randint(0, 2),
+                           "silent_bad": j % 3 == 1}
 
 
 def _leading_zero_ids():
@@ -318,6 +319,9 @@ def _e2e(ctx, case):
     net = H.new_net()
     ip = "10.19.0.5"
     dev = SimDevice(net, host=ip, port=6444, version=3, token=token, key=key, device_id=did, ac=ACModel({"target_temperature": 21.5}))
+    # some units do not answer a handshake that carries a token they do not know (no error packet, no close): the attempt with the
+    # other byte order's credentials then ends in read timeouts
+    dev.silent_on_bad_token = bool(case.get("silent_bad"))
     payload = D.build_payload(ip, 6444, b"000000P0000000Q1B88C29C963BA0000", b"net_ac_63BA")
     SimHost(net, ip, 6445, [(0.05, None, D.build_reply(3, did, payload))])
     for i in range(case["others"]):
@@ -332,7 +336,7 @@ def _e2e(ctx, case):
             return [d] if d else []
         return await Discover.discover(**kw)
 
-    k = ("e2e", did, case["endian"], case["mode"], case["others"], case.get("invent", True))
+    k = ("e2e", did, case["endian"], case["mode"], case["others"], case.get("invent", True), bool(case.get("silent_bad")))
     try:
         devs, loop = H.run_virtual(go, net)
     except Exception as e:  # noqa: BLE001
